@@ -15,6 +15,12 @@ func init() {
 }
 
 func checkC07(c *Ctx, r *Report) {
+	// an enum lists exactly the declared constants: each constant's value is read with the
+	// accessor of its own kind (an unsigned constant above MaxInt64 is not "inexact")
+	defer ruleHelperShape(c, r, "C07.c", helperShape{Fn: "gast.ExtractConstValue",
+		AllowedCalls: []string{"go/constant.StringVal", "go/constant.Int64Val", "go/constant.Uint64Val", "go/constant.Float64Val", "go/constant.BoolVal", "(*go/types.Const).Val", "math.IsInf", "math.IsNaN", "(*go/types.Basic).Info"},
+		MustCalls:    []string{"go/constant.StringVal", "go/constant.Int64Val", "go/constant.Uint64Val", "go/constant.Float64Val", "go/constant.BoolVal"},
+		Why:          "every declared constant of an enum's type yields a value: string, signed, unsigned, float and bool constants are each read with their own go/constant accessor"})
 	defer checkGraphMutationSites(c, r, "C07.a")
 	defer checkProcessWideState(c, r, "C07.e")
 	w := c.W
